@@ -23,8 +23,8 @@ NoFam == [x \in {} |-> "G"]
 
 Init == tm = NoFam /\ sk = "" /\ kind \in Kinds
 
-ShapeSet == IF kind = "mixed" THEN MixedShapes ELSE IF kind = "enc" THEN EncShapes ELSE ShapesUpTo(MaxLen)
-Small == kind \in {"mixed", "enc"}     \* the two small universes share the Mixed* bounds
+ShapeSet == IF kind = "mixed" THEN MixedShapes ELSE IF kind = "enc" THEN EncShapes ELSE IF kind = "root" THEN RootShapes ELSE ShapesUpTo(MaxLen)
+Small == kind \in {"mixed", "enc", "root"}     \* the two small universes share the Mixed* bounds
 
 (* GET/POST are interchangeable: the lowest-ranked template never has POST only *)
 MethOK(f) == LET lo == CHOOSE s \in DOMAIN f : \A s2 \in DOMAIN f : ShapeRank(s) <= ShapeRank(s2)
@@ -46,7 +46,8 @@ Complete == sk # ""
 TheDoc == Doc(tm, sk)
 
 InCore == /\ Cardinality(DOMAIN tm) <= CoreT
-          /\ IF Small THEN sk \in MixedCoreServers
+          /\ IF kind = "root" THEN sk \in MixedServerSet        \* the root template matters under a base path
+             ELSE IF Small THEN sk \in MixedCoreServers
              ELSE sk \in CoreServers /\ \A s \in DOMAIN tm : Len(s) <= CoreLen
 MethCode(mk) == CASE mk = "G" -> 1 [] mk = "P" -> 2 [] mk = "GP" -> 3
 Mix(n) == (n * 7919) % 1013
